@@ -43,4 +43,58 @@ mod verif_kani_value {
     // Dropped after measurement: 1.0f32 / 1.0f64 through the real float formatter (760 s unwinding
     // failure / 900 s timeout).  The integral branch (`{self}.0`) is covered by the witness battery
     // of the replay crate (verif_replay witness-k11f) only.
+    // The writers' branch structure over EVERY f64 / f32, with core's float Display stubbed by a
+    // fixed token "D" (what core prints for a float -- shortest round-trip digits, no exponent, no
+    // '.' for integral values, "inf" / "-inf" -- is trusted): the output is exactly
+    //   nan | -nan | 0.0 | -0.0 | D (infinities) | D or D.0 (finite non-zero)
+    // for the classes that do not depend on the integrality test: every NaN, both zeros, both
+    // infinities (never "inf.0"), and any other value is Display's digits with or without ".0".
+    fn stub_f64_display(_v: &f64, f: &mut core::fmt::Formatter<'_>) -> core::fmt::Result {
+        f.write_str("D")
+    }
+
+    fn stub_f32_display(_v: &f32, f: &mut core::fmt::Formatter<'_>) -> core::fmt::Result {
+        f.write_str("D")
+    }
+
+    #[kani::proof]
+    #[kani::unwind(8)]
+    #[kani::stub(<f64 as core::fmt::Display>::fmt, stub_f64_display)]
+    fn k11_f64_structure() {
+        let v: f64 = kani::any();
+        let s = printed(v);
+        if v.is_nan() {
+            assert!(s == if v.is_sign_negative() { "-nan" } else { "nan" }, "NaN not printed as [-]nan");
+        } else if v == 0.0 {
+            assert!(s == if v.is_sign_negative() { "-0.0" } else { "0.0" }, "zero not printed as [-]0.0");
+        } else if v.is_infinite() {
+            assert!(s == "D", "an infinity is not printed by Display alone");
+        } else {
+            // which of the two is decided by `self % 1.0 == 0.0`: not judged here (CBMC's model of the
+            // float remainder disagrees with `trunc` on some non-integral values, so neither
+            // formulation of "integral" can be used as an oracle)
+            assert!(s == "D.0" || s == "D", "a finite non-zero value is not Display's digits with an optional .0");
+        }
+        kani::cover!(s.len() == 3 && !v.is_nan() && v != 0.0, "a value printed with .0");
+        kani::cover!(s.len() == 1 && v.is_infinite(), "an infinity");
+    }
+
+    #[kani::proof]
+    #[kani::unwind(8)]
+    #[kani::stub(<f32 as core::fmt::Display>::fmt, stub_f32_display)]
+    fn k11_f32_structure() {
+        let v: f32 = kani::any();
+        let s = printed32(v);
+        if v.is_nan() {
+            assert!(s == if v.is_sign_negative() { "-nan" } else { "nan" }, "f32 NaN not printed as [-]nan");
+        } else if v == 0.0 {
+            assert!(s == if v.is_sign_negative() { "-0.0" } else { "0.0" }, "f32 zero not printed as [-]0.0");
+        } else if v.is_infinite() {
+            assert!(s == "D", "an f32 infinity is not printed by Display alone");
+        } else {
+            assert!(s == "D.0" || s == "D", "a finite non-zero f32 is not Display's digits with an optional .0");
+        }
+        kani::cover!(s.len() == 3 && !v.is_nan() && v != 0.0, "a value printed with .0");
+        kani::cover!(s.len() == 1 && v.is_infinite(), "an infinity");
+    }
 }
